@@ -6,7 +6,7 @@ Require Import ZifyBool ZifyNat ZifyN.
 (* the generated constants this file depends on, as equations (re-checked on every run) *)
 Lemma a85_consts :
   sym85_lo = 33 /\ sym85_hi = 117 /\ a85_z = 122 /\ a85_pad = 117 /\ a85_tilde = 126 /\ a85_gt = 62 /\
-  a85_ws = [32; 10; 13; 9].
+  a85_ws = [0; 9; 10; 12; 13; 32].
 Proof. repeat split; reflexivity. Qed.
 
 Definition digit (s : N) : Prop := 33 <= s <= 117.
